@@ -598,7 +598,7 @@ def _repaste_class(r, ix, c, xs, ttable, rel, key_prefix=None):
     return n
 
 
-def rule_repaste(ctx, floor=3, modules=('ExprNodes',)):
+def rule_repaste(ctx, floor=2, modules=('ExprNodes',)):
     ix = ctx.index
     _ROWS_CACHE.clear()
     _FEAS_MEMO.clear()
@@ -653,7 +653,7 @@ PyList_Append PyList_Insert PyList_SetSlice PyList_Sort PyList_Reverse PyList_Se
 PyDict_SetItem PyDict_SetItemString PyDict_DelItem PyDict_DelItemString PyDict_Contains PyDict_ContainsString PyDict_Merge PyDict_Update PyDict_MergeFromSeq2
 PyDict_GetItemRef PyDict_GetItemStringRef PyDict_SetDefaultRef PyDict_Pop PyDict_PopString
 PySet_Add PySet_Discard PySet_Contains PySet_Clear PyByteArray_Resize PyUnicode_Tailmatch PyUnicode_Contains PyTuple_SetItem _PyTuple_Resize _PyBytes_Resize
-PyModule_AddObject PyModule_AddObjectRef PyModule_AddIntConstant PyModule_AddStringConstant PyErr_WarnEx PyErr_WarnFormat PyType_Ready
+PyUnicode_READY PyModule_AddObject PyModule_AddObjectRef PyModule_AddIntConstant PyModule_AddStringConstant PyErr_WarnEx PyErr_WarnFormat PyType_Ready
 '''.split())
 _RAISE = r'(?:PyErr_(?:SetString|Format|SetObject|SetNone|NoMemory|BadArgument|BadInternalCall)|__Pyx_Raise\w*)\s*\((?:[^;()]|\((?:[^;()]|\([^;()]*\))*\))*\)\s*;'
 _RAISE_THEN_NEG = re.compile(_RAISE + r'\s*(?:[^;{}]*;\s*){0,3}?return\s+\(?\s*-\s*\d+\s*\)?\s*;')
@@ -690,6 +690,23 @@ def helper_fail_evidence(cat, cname, _seen=None):
             why = helper_fail_evidence(cat, m.group(1), _seen) if m.group(1) != cname else None
             if why:
                 return '%s (%s:%s) returns the result of %s; %s' % (cname, d.file, d.line, m.group(1), why)
+        # if (unlikely(CALLEE(...) < 0)) return -1;   - the failure of a callee is passed on
+        for m in re.finditer(r'\bif\s*\((?:[^;{}]*?)\b([A-Za-z_]\w*)\s*\((?:[^;{}()]|\([^;{}()]*\))*\)\s*(?:<\s*0|==\s*-\s*1)[^;{}]*\)\s*\{?\s*return\s+\(?\s*-\s*\d+\s*\)?\s*;', body):
+            why = helper_fail_evidence(cat, m.group(1), _seen) if m.group(1) != cname else None
+            if why:
+                return '%s (%s:%s) returns a negative literal when %s failed; %s' % (cname, d.file, d.line, m.group(1), why)
+        # error epilogue: `if (unlikely(!x)) goto bad;` / `if (r < 0) goto bad;` ... `bad: <cleanup> return -1;`
+        for m in re.finditer(r'(?m)^\s*([A-Za-z_]\w*)\s*:(?!:)', body):
+            lab = m.group(1)
+            if lab in ('default', 'case'):
+                continue
+            tail = body[m.end():]
+            nxt = re.search(r'(?m)^\s*[A-Za-z_]\w*\s*:(?!:)', tail)
+            block = tail[:nxt.start()] if nxt else tail
+            if not re.search(r'\breturn\s+\(?\s*-\s*\d+\s*\)?\s*;', block) or 'PyErr_Clear' in block:
+                continue
+            if re.search(r'\bif\s*\((?:[^;{}]*?)(?:!\s*\(?\s*[A-Za-z_]|<\s*0|==\s*-\s*1|==\s*NULL)[^;{}]*\)\s*\{?\s*goto\s+%s\s*;' % re.escape(lab), body):
+                return '%s (%s:%s) leaves through the error label `%s` (reached after a failed call) with a negative literal' % (cname, d.file, d.line, lab)
         if 'PyErr_Clear' not in body:
             for m in re.finditer(r'\b([A-Za-z_]\w*)\s*=\s*([A-Za-z_]\w*)\s*\(', body):
                 var, callee = m.group(1), m.group(2)
@@ -1041,6 +1058,29 @@ class _OnceProv(L.Prov):
             et.attrs[k], ef.attrs[k] = True, False
             return [(True, et), (False, ef)]
         return L.Prov.branch(self, test, env)
+
+    @staticmethod
+    def _is_predicate(e):
+        if isinstance(e, ast.BoolOp):
+            return all(_OnceProv._is_predicate(v) for v in e.values)
+        if isinstance(e, ast.UnaryOp) and isinstance(e.op, ast.Not):
+            return _OnceProv._is_predicate(e.operand)
+        if isinstance(e, ast.Attribute):
+            return e.attr.startswith('is_')
+        if isinstance(e, ast.Call) and isinstance(e.func, ast.Attribute):
+            return e.func.attr in L.SIMPLE_PREDICATES and not e.args
+        return False
+
+    def stmt(self, s, env):
+        # flag = <test over is_name / is_literal / is_simple() ...>: decided where it is computed (the operands may be rebound before the flag is tested)
+        if isinstance(s, ast.Assign) and len(s.targets) == 1 and isinstance(s.targets[0], ast.Name) and self._is_predicate(s.value) \
+                and not isinstance(s.value, ast.Attribute):
+            out = []
+            for t, e in self.branch(s.value, env):
+                e.vars[s.targets[0].id] = ('const', bool(t))
+                out.append(e)
+            return out
+        return L.Prov.stmt(self, s, env)
 
     def ev_Subscript(self, n, env):
         sl = n.slice
